@@ -72,19 +72,56 @@ Theorem c03_include_skip_preserves_exec_refuted :
 Proof. exact include_skip_preserves_exec_refuted. Qed.
 Print Assumptions c03_include_skip_preserves_exec_refuted.
 
-(* one run can leave an evaluable directive behind (the walker skips the position after a dropped
-   directive); idempotent once every remaining directive is one the pass keeps *)
-Theorem c03_include_skip_idempotent_partial :
-  forall (jv : list (bytes * json)) (d : document),
-    settled jv (include_skip jv d) = true ->
-    include_skip jv (include_skip jv d) = include_skip jv d.
-Proof. exact include_skip_idempotent_partial. Qed.
-Print Assumptions c03_include_skip_idempotent_partial.
+(* the repaired pass (work/c03_fix_directive-after-dropped-directive-not-visited.patch: the walker
+   ranges over a copy of the directive refs) visits every directive, so its output holds no
+   evaluable @skip/@include and it is idempotent on EVERY document *)
+Theorem c03_include_skip_idempotent :
+  forall (jv : list (bytes * json)) (d : document), include_skip jv (include_skip jv d) = include_skip jv d.
+Proof. exact include_skip_idempotent. Qed.
+Print Assumptions c03_include_skip_idempotent.
 
-Theorem c03_include_skip_idempotent_refuted :
-  exists (jv : list (bytes * json)) (d : document), include_skip jv (include_skip jv d) <> include_skip jv d.
-Proof. exact include_skip_idempotent_refuted. Qed.
-Print Assumptions c03_include_skip_idempotent_refuted.
+(* historical: before the repair one run could leave an evaluable directive behind (the walker
+   skipped the position after a dropped directive); that pass was idempotent only once every
+   remaining directive was one it keeps *)
+Theorem c03_include_skip_idempotent_pre_repair_partial :
+  forall (jv : list (bytes * json)) (d : document),
+    settled jv (include_skip_pre_repair jv d) = true ->
+    include_skip_pre_repair jv (include_skip_pre_repair jv d) = include_skip_pre_repair jv d.
+Proof. exact (include_skip_gen_idempotent_partial true). Qed.
+Print Assumptions c03_include_skip_idempotent_pre_repair_partial.
+
+Theorem c03_include_skip_idempotent_pre_repair_refuted :
+  exists (jv : list (bytes * json)) (d : document),
+    include_skip_pre_repair jv (include_skip_pre_repair jv d) <> include_skip_pre_repair jv d.
+Proof. exact include_skip_idempotent_pre_repair_refuted. Qed.
+Print Assumptions c03_include_skip_idempotent_pre_repair_refuted.
+
+(* { count @skip(if: false) @include(if: false) @tag  a { name } }: the repaired pass removes [count]
+   in its single run, the old one did not *)
+Theorem c03_include_skip_fixed_witness :
+  include_skip [] d_three = d_three_done /\ include_skip_pre_repair [] d_three <> d_three_done.
+Proof. exact include_skip_fixed_witness. Qed.
+Print Assumptions c03_include_skip_fixed_witness.
+
+(* ---- inline_selections_from_inline_fragments: the placeholder of an emptied fragment ----
+   { a { id ... { name @skip(if: true) } } } and { a { id name @skip(if: true) } } differ only in
+   fragment structure; before work/c03_fix_placeholder-left-after-fragment-inlining.patch their normal
+   forms differed (the placeholder was inlined next to [id]), now they are equal; the repaired pass
+   removes an inlinable fragment that holds only the placeholder whenever its set has another selection *)
+Theorem c03_placeholder_pre_repair_refuted :
+  norm_selections_pre_repair S0 [] d_wrapped <> norm_selections_pre_repair S0 [] d_plain.
+Proof. exact placeholder_pre_repair_refuted. Qed.
+Print Assumptions c03_placeholder_pre_repair_refuted.
+
+Theorem c03_placeholder_fixed_witness : norm_selections S0 [] d_wrapped = norm_selections S0 [] d_plain.
+Proof. exact placeholder_fixed_witness. Qed.
+Print Assumptions c03_placeholder_fixed_witness.
+
+Theorem c03_placeholder_fragment_dropped : forall S T f c done r,
+  could_inline S T c [] [placeholder] = true -> (1 <= length done + length r)%nat ->
+  il_level S true (Datatypes.S f) T done (SInline c [] [placeholder] :: r) = il_level S true f T done r.
+Proof. exact placeholder_fragment_dropped. Qed.
+Print Assumptions c03_placeholder_fragment_dropped.
 
 (* ---- fragment_definition_removal ---- *)
 Theorem c03_remove_frag_defs_preserves_exec_partial :
